@@ -1,6 +1,7 @@
 package main
 
 import (
+	"encoding/json"
 	"fmt"
 	"sort"
 	"strings"
@@ -8,7 +9,7 @@ import (
 	ds "github.com/sealdice/dicescript"
 )
 
-// vmap <op>... : L:k load, S:k:v store, O:k:v loadOrStore, D:k loadAndDelete, X:k delete, C clear, R range, N length.
+// vmap <op>... : L:k load, S:k:v store, O:k:v loadOrStore, D:k loadAndDelete, X:k delete, C clear, J:k=v,k=v restore from JSON, R range, N length.
 // prints "<ret> @ <shape>" per op, joined by " ; "
 func vmapLine(t []string) string {
 	m := &ds.ValueMap{}
@@ -64,6 +65,24 @@ func vmapLine(t []string) string {
 			ret = "-"
 		case f[0] == "C":
 			m.Clear()
+			ret = "-"
+		case f[0] == "J" && len(f) == 2:
+			// restore from a JSON document holding the given entries (k=v,k=v; "-" = the empty document): afterwards the map is that document
+			doc := map[string]any{}
+			if f[1] != "-" {
+				for _, kv := range strings.Split(f[1], ",") {
+					p := strings.SplitN(kv, "=", 2)
+					n, ok := atoi(p[len(p)-1])
+					if len(p) != 2 || !ok {
+						return "bad-op"
+					}
+					doc[p[0]] = map[string]any{"t": 0, "v": n}
+				}
+			}
+			b, _ := json.Marshal(doc)
+			if err := json.Unmarshal(b, m); err != nil {
+				return "bad-op"
+			}
 			ret = "-"
 		case f[0] == "R":
 			var ps []string
